@@ -1,9 +1,138 @@
 import NmVerif.Proto
+import NmVerif.Basic
+import NmVerif.Containers.KindRefs
+import NmVerif.Containers.Kinds
 namespace NmVerif.Driver.C09
-open NmVerif NmVerif.Proto
+open NmVerif NmVerif.Proto NmVerif.KindRefs
 
-def handle : Handler := fun op _args =>
+/-- answer of an optional shape: `ok a,b,c` / `nothing` -/
+def optShape : Option (List Nat) → String
+  | some s => s!"ok {fmtNats s}"
+  | none => "nothing"
+
+def optArr : Option ArrV → String
+  | some (s, d) => s!"ok shape={fmtNats s} data={fmtNats d}"
+  | none => "nothing"
+
+/-- `a,b` or `a,b,c` with `N` for an absent entry -/
+def parseSlice (t : String) : Option (Option Nat × Option Nat × Option Nat) :=
+  let f : String → Option (Option Nat) := fun x => if x == "N" then some none else x.toNat?.map some
+  match t.splitOn "," with
+  | [x, y] => do pure (← f x, ← f y, none)
+  | [x, y, z] => do pure (← f x, ← f y, ← f z)
+  | _ => none
+
+def natsOfInts (l : List Int) : Option (List Nat) :=
+  l.mapM (fun x => if x < 0 then none else some x.toNat)
+
+/-- reference answers of the C09 kind matrix (the C01 ops `strides`, `offset`, `indices`, `product`
+    are answered by Driver.C01) -/
+def handle : Handler := fun op a =>
   match op with
+  | "k9_reshape" => orBad do
+      let s ← a.nats "shape"
+      let d ← a.ints "newshape"
+      pure (optShape (reshape s d))
+  | "k9_transpose" => orBad do
+      let s ← a.nats "shape"
+      let ax ← a.optInts "axes"
+      match ax with
+      | none => pure (optShape (transpose s none))
+      | some l => match natsOfInts l with
+        | some n => pure (optShape (transpose s (some n)))
+        | none => pure "nothing"
+  | "k9_broadcast_shape" => orBad do
+      let ss ← a.natLists "shapes"
+      pure (optShape (broadcastShapes ss))
+  | "k9_broadcast_to" => orBad do
+      let s ← a.nats "ashape"
+      let t ← a.nats "bshape"
+      match broadcastTo s t with
+      | some r => pure s!"ok ({fmtNats r}),({fmtNats (broadcastFreeAxes s t)})"
+      | none => pure "nothing"
+  | "k9_tile" => orBad do
+      let s ← a.nats "shape"
+      let r ← a.nats "reps"
+      pure s!"ok {fmtNats (tile s r)}"
+  | "k9_repeat" => orBad do
+      let s ← a.nats "shape"
+      let ax ← a.optInt "axis"
+      match a.get? "repeats" with
+      | none => none
+      | some rs =>
+        if rs.contains ',' || (a.get? "rlist") == some "1" then do
+          let r ← parseNats rs
+          pure (optShape (repeatList s r ax))
+        else do
+          let r ← rs.toNat?
+          pure (optShape (repeatScalar s r ax))
+  | "k9_remove_dims" => orBad do
+      let s ← a.nats "shape"
+      let ax ← a.optInts "axis"
+      let kd ← a.nat "keepdims"
+      pure (optShape (removeDims s ax (kd != 0)))
+  | "k9_normalize_axis" => orBad do
+      let nd ← a.nat "ndim"
+      match a.get? "scalar" with
+      | some "1" => do
+          let ax ← a.int "axis"
+          match normAxis nd ax with
+          | some k => pure s!"ok {k}"
+          | none => pure "nothing"
+      | _ => do
+          let ax ← a.ints "axis"
+          pure (optShape (normAxes nd ax))
+  | "k9_concatenate" => orBad do
+      let s ← a.nats "ashape"
+      let t ← a.nats "bshape"
+      let ax ← a.optInt "axis"
+      pure (optShape (concatenate s t ax))
+  | "k9_pad" => orBad do
+      let s ← a.nats "shape"
+      let pw ← a.nats "pad_width"
+      pure (optShape (pad s pw))
+  | "k9_slice" => orBad do
+      let s ← a.nats "shape"
+      let s0 ← (a.get? "s0").bind parseSlice
+      let s1 ← (a.get? "s1").bind parseSlice
+      match s with
+      | [n0, n1] => pure s!"ok {fmtNats [sliceLen n0 s0.1 s0.2.1 s0.2.2, sliceLen n1 s1.1 s1.2.1 s1.2.2]}"
+      | _ => none
+  | "k9v_transpose" => orBad do
+      let s ← a.nats "x"
+      let ax ← a.optInts "axes"
+      match ax with
+      | none => pure (optArr (vTranspose s none))
+      | some l => match natsOfInts l with
+        | some n => pure (optArr (vTranspose s (some n)))
+        | none => pure "nothing"
+  | "k9v_reshape" => orBad do
+      let s ← a.nats "x"
+      let d ← a.ints "newshape"
+      pure (optArr (vReshape s d))
+  | "k9v_tile" => orBad do
+      let s ← a.nats "x"
+      let r ← a.nats "reps"
+      pure (optArr (some (vTile s r)))
+  | "k9v_add" => orBad do
+      let s ← a.nats "x"
+      let t ← a.nats "y"
+      pure (optArr (vAdd s t))
+  | "k9v_sum" => orBad do
+      let s ← a.nats "x"
+      let ax ← a.int "axis"
+      pure (optArr (vSum s ax))
+  | "k9_bvec" => orBad do
+      -- the bounded-vector model itself, for the utl::static_vector cases of the matrix
+      let cap ← a.nat "cap"
+      let l ← a.nats "list"
+      let b := Kinds.BVec.ofList cap l
+      pure s!"ok size={b.size} list={fmtNats b.toList}"
+  | "k9_clip" => orBad do
+      let lo ← a.int "lo"
+      let hi ← a.int "hi"
+      let v ← a.int "v"
+      pure s!"ok {(Kinds.Clipped.mk' lo hi v).val}"
   | _ => none
 
 end NmVerif.Driver.C09
